@@ -42,7 +42,10 @@ package ast
 //@ axiom wfObjectLiteral(x *ObjectLiteral): WFNode(iface(x)) ==> forallkey(x.Pairs, k, WFN(x.Pairs[k]))
 //@ axiom wfArrayLiteral(x *ArrayLiteral): WFNode(iface(x)) ==> forall(k, 0, len(x.Elements), WFN(x.Elements[k]))
 
+// C13: the line a node reports is the 1-based line on which its own token ends
+//@ spec lineOfNode(n Node) uint = ite(istype(n, *ArrayLiteral), as(n, *ArrayLiteral).Token.Pos.EndLine + 1, ite(istype(n, *AssignStmt), as(n, *AssignStmt).Token.Pos.EndLine + 1, ite(istype(n, *BlockStmt), as(n, *BlockStmt).Token.Pos.EndLine + 1, ite(istype(n, *BooleanLiteral), as(n, *BooleanLiteral).Token.Pos.EndLine + 1, ite(istype(n, *BreakIfStmt), as(n, *BreakIfStmt).Token.Pos.EndLine + 1, ite(istype(n, *BreakStmt), as(n, *BreakStmt).Token.Pos.EndLine + 1, ite(istype(n, *CallExp), as(n, *CallExp).Token.Pos.EndLine + 1, ite(istype(n, *ComponentStmt), as(n, *ComponentStmt).Token.Pos.EndLine + 1, ite(istype(n, *ContinueIfStmt), as(n, *ContinueIfStmt).Token.Pos.EndLine + 1, ite(istype(n, *ContinueStmt), as(n, *ContinueStmt).Token.Pos.EndLine + 1, ite(istype(n, *DotExp), as(n, *DotExp).Token.Pos.EndLine + 1, ite(istype(n, *DumpStmt), as(n, *DumpStmt).Token.Pos.EndLine + 1, ite(istype(n, *EachStmt), as(n, *EachStmt).Token.Pos.EndLine + 1, ite(istype(n, *ElseIfStmt), as(n, *ElseIfStmt).Token.Pos.EndLine + 1, ite(istype(n, *ExpressionStmt), as(n, *ExpressionStmt).Token.Pos.EndLine + 1, ite(istype(n, *FloatLiteral), as(n, *FloatLiteral).Token.Pos.EndLine + 1, ite(istype(n, *ForStmt), as(n, *ForStmt).Token.Pos.EndLine + 1, ite(istype(n, *HTMLStmt), as(n, *HTMLStmt).Token.Pos.EndLine + 1, ite(istype(n, *Identifier), as(n, *Identifier).Token.Pos.EndLine + 1, ite(istype(n, *IfStmt), as(n, *IfStmt).Token.Pos.EndLine + 1, ite(istype(n, *IndexExp), as(n, *IndexExp).Token.Pos.EndLine + 1, ite(istype(n, *InfixExp), as(n, *InfixExp).Token.Pos.EndLine + 1, ite(istype(n, *InsertStmt), as(n, *InsertStmt).Token.Pos.EndLine + 1, ite(istype(n, *IntegerLiteral), as(n, *IntegerLiteral).Token.Pos.EndLine + 1, ite(istype(n, *NilLiteral), as(n, *NilLiteral).Token.Pos.EndLine + 1, ite(istype(n, *ObjectLiteral), as(n, *ObjectLiteral).Token.Pos.EndLine + 1, ite(istype(n, *PostfixExp), as(n, *PostfixExp).Token.Pos.EndLine + 1, ite(istype(n, *PrefixExp), as(n, *PrefixExp).Token.Pos.EndLine + 1, ite(istype(n, *Program), as(n, *Program).Token.Pos.EndLine + 1, ite(istype(n, *ReserveStmt), as(n, *ReserveStmt).Token.Pos.EndLine + 1, ite(istype(n, *SlotStmt), as(n, *SlotStmt).Token.Pos.EndLine + 1, ite(istype(n, *StringLiteral), as(n, *StringLiteral).Token.Pos.EndLine + 1, ite(istype(n, *TernaryExp), as(n, *TernaryExp).Token.Pos.EndLine + 1, ite(istype(n, *UseStmt), as(n, *UseStmt).Token.Pos.EndLine + 1, 0))))))))))))))))))))))))))))))))))
 //@ family ast.Node.Line(this)
+//@   ensures result == lineOfNode(this)
 //@   modifies nothing
 //@ family ast.Node.String(this)
 //@   modifies nothing
@@ -70,6 +73,7 @@ package ast
 
 // an insert that names no reserve of the layout is an error; nothing else is
 //@ func (p *Program) checkUndefinedInsert
+//@   call New#0: assert error-names-the-insert-and-its-file: arg0 == inserts[name__0].Token.Pos.EndLine + 1 && arg1 == inserts[name__0].FilePath
 //@   ensures result == nil <==> forallkey(inserts, k, has(p.Reserves, k))
 //@   modifies nothing
 //@   loop 0: invariant forallkey(inserts, k, visited(k) ==> has(p.Reserves, k))
@@ -103,6 +107,9 @@ package ast
 
 // ApplyComponent attaches the freshly parsed component program to ONE use of that name
 //@ func (p *Program) ApplyComponent
+//@   call New#*: assert error-names-the-page: arg1 == progFilePath
+//@   call New#2: assert line-of-the-offending-slot: arg0 == slot.Token.Pos.EndLine + 1
+//@   call New#3: assert line-of-the-offending-slot: arg0 == slot.Token.Pos.EndLine + 1
 //@   requires prog != nil && forall(k, 0, len(prog.Statements), prog.Statements[k] != nil && refof(prog.Statements[k]) != 0)
 //@   requires forall(i, 0, len(p.Components), forall(j, 0, len(p.Components), i != j ==> p.Components[i] != p.Components[j]))
 //@   requires forall(i, 0, len(p.Components), p.Components[i].Block != prog)
